@@ -1,41 +1,48 @@
 package main
 
 import (
-	"context"
-	"encoding/hex"
 	"fmt"
+	"os"
+	"time"
 
-	"github.com/oasisprotocol/oasis-core/go/storage/mkvs"
-	"github.com/oasisprotocol/oasis-core/go/storage/mkvs/node"
+	"github.com/oasisprotocol/oasis-core/go/common/logging"
+	dbapi "github.com/oasisprotocol/oasis-core/go/storage/mkvs/db/api"
+	badgerdb "github.com/oasisprotocol/oasis-core/go/storage/mkvs/db/badger"
+	"github.com/oasisprotocol/oasis-core/go/storage/mkvs/db/pathbadger"
 
 	"verif/sim/store"
 )
 
 func main() {
-	ctx := context.Background()
-	ks := []string{"695960f6a5ed356095e722a7bc161fd3cfc9d22c73d9a87127cc08ee", "76f576c952", "8f408998adaa8d61871cb0893a4aed085b2eb8fbafd4b1b535487561c6d3f590cc38c7dfae5d7b7056e20fe24cd9cb1e42bb26aa85eecc4a0e01edbd06c7", "53de95a42090e82ade952c7a86666555746975bff1d62d5f7204e849f4cce654c7cec0d2782a66b661e541e2311e840f979c561887d56d00"}
-	var keys [][]byte
-	for _, k := range ks {
-		b, _ := hex.DecodeString(k)
-		keys = append(keys, b)
-	}
-	for _, backend := range []string{"badger", "pathbadger"} {
-		real := store.OpenDB(backend, "")
-		ndb := &store.FaultyNodeDB{NodeDB: real}
-		t := mkvs.New(nil, ndb, node.RootTypeState)
-		_ = t.Insert(ctx, keys[0], []byte{})
-		_ = t.Insert(ctx, keys[1], []byte{})
-		_ = t.Insert(ctx, keys[2], []byte("v"))
-		_, h, err := t.Commit(ctx, store.Namespace, 1)
-		fmt.Println(backend, "commit", h, err)
-		fmt.Println(ndb.Finalize([]node.Root{{Namespace: store.Namespace, Version: 1, Type: node.RootTypeState, Hash: h}}))
-		err = t.Insert(ctx, keys[3], []byte("1234567"))
-		fmt.Println("ins", err)
-		for _, i := range []int{2, 0, 1, 3} {
-			v, err := t.Get(ctx, keys[i])
-			fmt.Printf("  after ins: get %d -> %q %v\n", i, v, err)
+	_ = logging.Initialize(nil, logging.FmtLogfmt, logging.LevelError, nil)
+	for _, mem := range []bool{true, false} {
+		for _, cache := range []int64{16 << 20, 1 << 20, 64 << 10} {
+			for _, be := range []string{"badger", "pathbadger"} {
+				t0 := time.Now()
+				n := 20
+				for i := 0; i < n; i++ {
+					dir := ""
+					if !mem {
+						dir, _ = os.MkdirTemp("/dev/shm", "probe")
+					}
+					cfg := &dbapi.Config{DB: dir, Namespace: store.Namespace, MaxCacheSize: cache, NoFsync: true, MemoryOnly: mem}
+					var ndb dbapi.NodeDB
+					var err error
+					if be == "badger" {
+						ndb, err = badgerdb.New(cfg)
+					} else {
+						ndb, err = pathbadger.New(cfg)
+					}
+					if err != nil {
+						panic(err)
+					}
+					ndb.Close()
+					if dir != "" {
+						os.RemoveAll(dir)
+					}
+				}
+				fmt.Printf("mem=%v cache=%d %s: %.1f ms/open+close\n", mem, cache, be, float64(time.Since(t0).Milliseconds())/float64(n))
+			}
 		}
-		t.Close()
-		ndb.Close()
 	}
 }
